@@ -50,6 +50,12 @@ def run_grid(case):
 # ----------------------------------------------------------------------------- raw
 def _atom(a):
     t, v, f = a["t"], a["v"], a.get("f", 0)
+    if t == "num" and a.get("eps"):
+        import math
+        x = float(v)
+        for _ in range(a["eps"]):
+            x = math.nextafter(x, math.inf)
+        return x
     if t == "num":
         if f == 2:
             import numpy
@@ -90,10 +96,10 @@ def raw_cases(rng, n):
     good = [[0, 1, 1, 0, 1, 1], [1, 1, 0, 1, 1, 0]]
 
     def atoms(vals, bad=None):
-        out = [{"t": "num", "v": v, "f": rng.randint(0, 2)} for v in vals]
+        out = [{"t": "num", "v": v, "f": rng.randint(0, 2), "eps": 0} for v in vals]
         if bad:
             j, t = bad
-            out[j] = {"t": t, "v": rng.randint(0, 2), "f": rng.randint(0, 1)}
+            out[j] = {"t": t, "v": rng.randint(0, 2), "f": rng.randint(0, 1), "eps": 0}
             if t == "neg":
                 out[j]["v"] = rng.randint(1, 3)
         return out
@@ -121,6 +127,18 @@ def raw_cases(rng, n):
                     rows = [{"kind": "list", "atoms": atoms(base[0], (j, t) if row == 0 else None)},
                             {"kind": "list", "atoms": atoms(base[1], (j, t) if row == 1 else None)}]
                     cases.append({"op": "raw", "raw": {"outer": "list", "rows": rows}})
+    # values that differ by a few units in the last place (1.0 vs 1.0000000000000002): distinct numbers
+    for j, other in ((0, 1), (1, 0), (3, 4), (4, 3)):
+        for eps in (1, 2):
+            T = [{"t": "num", "v": v, "f": 1, "eps": 0} for v in [1, 1, 0, 1, 1, 0]]
+            T[j]["eps"] = eps
+            cases.append({"op": "raw", "raw": {"outer": "list", "rows": [{"kind": "list", "atoms": atoms([0, 1, 1, 0, 1, 1])},
+                                                                         {"kind": "list", "atoms": T}]}})
+    for eps in (1, 2):
+        B = [{"t": "num", "v": v, "f": 1, "eps": 0} for v in [0, 1, 1, 1, 1, 0]]
+        B[3]["eps"] = eps                      # B[3] > B[4] by a few ulps: forbidden
+        cases.append({"op": "raw", "raw": {"outer": "list", "rows": [{"kind": "list", "atoms": B},
+                                                                     {"kind": "list", "atoms": atoms([1, 1, 0, 1, 1, 0])}]}})
     # random association patterns with values 0..3
     while len(cases) < n:
         B = [rng.randint(0, 3) for _ in range(6)]
@@ -141,12 +159,16 @@ def run_mul(case):
     B, T, unit = case["sch"]
     num, den = case["num"], case["den"]
     U = unit * den
-    rec.update(out="", exact=0, mulB=[], mulT=[], rmulB=[], rmulT=[], afterB=[], afterT=[], fresh=0, scores=[])
+    rec.update(out="", exact=0, mulB=[], mulT=[], rmulB=[], rmulT=[], afterB=[], afterT=[], fresh=0, scores=[],
+               imulB=[], imulT=[], nick="")
     try:
         s = _impl["SS"](core.scheme_float(B, T, unit))
         k = num if den == 1 and num % 2 == 1 else num / den        # odd integer factors as int, the others as float
+        nick_before = s.get_nickname()          # history: the nickname of the original has been asked
         a = s * k
         b = k * s
+        t = s
+        t *= k                                  # augmented assignment: must not rescale s itself
         exact = True
 
         def vec(v):
@@ -172,7 +194,12 @@ def run_mul(case):
             sc.append([v1, v2])
         rec["scores"] = sc
         rec["afterB"], rec["afterT"] = vec(s.b_vector), vec(s.t_vector)
-        rec["fresh"] = 1 if fresh else 0
+        rec["fresh"] = 1 if (fresh and t is not s) else 0
+        rec["imulB"], rec["imulT"] = vec(t.b_vector), vec(t.t_vector)
+        nk = a.get_nickname()
+        # the nickname follows from the penalties: a FRESH scheme with the same penalties must get the same one
+        nk_fresh = _impl["SS"]([list(a.b_vector), list(a.t_vector)]).get_nickname()
+        rec["nick"] = nk if nk in ("UKSP", "GPDP", "IGKS", "EKS") else ("other" if nk == nk_fresh else "stale")
         rec["exact"] = 1 if exact else 0
         rec["out"] = "ok"
     except Exception as ex:
